@@ -237,6 +237,12 @@ func (r *RolloutReconciler) reconcileRolloutTerminating(rollout *v1beta1.Rollout
 	if err != nil {
 		klog.Errorf("rollout(%s/%s) get workload failed: %s", rollout.Namespace, rollout.Name, err.Error())
 		return nil, err
+	} else if workload != nil && !workload.IsStatusConsistent {
+		// the finder returns an empty workload (no annotations, no revision label key) in this case,
+		// with which the cleanup below would silently skip restoring the Service and the workload
+		klog.Infof("rollout(%s/%s) workload status is inconsistent, then wait a moment", rollout.Namespace, rollout.Name)
+		expectedTime := time.Now().Add(time.Duration(defaultGracePeriodSeconds) * time.Second)
+		return &expectedTime, nil
 	}
 	c := &RolloutContext{Rollout: rollout, NewStatus: newStatus, Workload: workload, FinalizeReason: v1beta1.FinaliseReasonDelete}
 	done, err := r.doFinalising(c)
